@@ -722,6 +722,10 @@ class Repo(object):
             dn = self.dotted(module, node)
             if dn and dn.startswith("re.") and dn[3:] in RE_FLAGS:
                 return RE_FLAGS[dn[3:]]
+            if dn is None and node.attr in ("start", "stop", "step"):
+                base = ev(node.value)
+                if isinstance(base, range):
+                    return getattr(base, node.attr)
             raise Unknown("attribute %s" % ast.dump(node)[:60])
         if isinstance(node, (ast.ListComp, ast.SetComp, ast.DictComp, ast.GeneratorExp)):
             return self._comp(module, node, env)
